@@ -266,6 +266,7 @@ def run(report, p):
 
     # ---- rules shared with other properties (same mechanism, same rule, reported under every property it can break)
     include_rules(report, p, 'c11', ['R11.m'], 'first-wins per (path, format) rests on the session keeping one entry per format')
+    include_rules(report, p, 'c14', ['R14.1', 'R14.2'], 'flatten and verify -pl do not modify the source history: nothing they reach mutates the file system outside the destination')
     include_rules(report, p, 'c03', ['R3.9'], 'verify -pl and flatten are reached through dispatchers that must call their worker')
     include_rules(report, p, 'c04', ['R4.1'], 'every carry-over call must end in a record: the session appends (or judges) under the recorded-state conditions only, no other condition lets it drop a call')
     report.not_decided += ["equality of the flattened manifest with an independently computed summary", "outcomes of verify -pl on concrete trees", "histories with nested children or renames (outside the property's premise)"]
